@@ -10,6 +10,8 @@
 //!                                   everything pending, then persist synchronously again
 //!   complete <node>                 complete the pending monitor updates of that node (mode unchanged)
 //!   deliver <k>                     deliver one queued peer message (bundle) from the k-th non-empty queue
+//!   deliverto <a> <b>               deliver one queued message (bundle) from a to b
+//!   settle <a> <b>                  deliver between a and b only, until quiet
 //!   pump                            deliver until quiet
 //!   disconnect <a> <b> | reconnect <a> <b>
 //!   config <node> <chan> <0 fee | 1 dust exposure | 2 cltv delta> <value>
@@ -62,8 +64,13 @@ struct Pay {
 	/// monitor of its channel
 	stale_live: bool,
 	created_step: usize,
-	/// (step, epoch) at which a resolution of the payment or of one of its parts was handled
-	resolutions: Vec<(usize, usize)>,
+	/// (step, epoch, closed) at which a resolution of the payment or of one of its parts was handled;
+	/// closed: the channel that carried the HTLC was no longer a channel of the manager then (only
+	/// for those does the monitor get told that the resolution is complete)
+	resolutions: Vec<(usize, usize, bool)>,
+	/// fee_paid_msat of the first PaymentSent
+	fee_reported: Option<Option<u64>>,
+	n_path_failed: usize,
 	/// every part is too small to be sure of a commitment-transaction output: if its channel closes
 	/// on chain before a claim is committed the amount is forfeited and the claim does not settle
 	dusty: bool,
@@ -97,6 +104,10 @@ struct World<'p> {
 	closed_with_held_fails: HashSet<ChannelId>,
 	/// payment hashes ever seen as a pending outbound HTLC of the channel
 	chan_hashes: std::collections::HashMap<ChannelId, HashSet<PaymentHash>>,
+	/// every HTLC the sender ever had pending for a payment: (channel, expiry, amount), from list_channels
+	sent_htlcs: std::collections::HashMap<PaymentHash, HashSet<(ChannelId, u32, u64)>>,
+	/// what the recipient reports to have received (PaymentClaimed)
+	received: std::collections::HashMap<PaymentHash, u64>,
 	commit_snaps: Vec<Transaction>,
 	epoch: usize,
 	step: usize,
@@ -149,8 +160,15 @@ impl<'p> World<'p> {
 			let set = self.chan_hashes.entry(ch.channel_id).or_insert_with(HashSet::new);
 			for h in ch.pending_outbound_htlcs.iter() {
 				set.insert(h.payment_hash);
+				self.sent_htlcs.entry(h.payment_hash).or_insert_with(HashSet::new).insert((ch.channel_id, h.cltv_expiry, h.amount_msat));
 			}
 		}
+	}
+
+	/// Has any channel that ever carried an HTLC of the payment left the sender's manager?
+	fn carried_by_closed_channel(&self, nodes: &[Node], hash: &PaymentHash) -> bool {
+		let open: HashSet<ChannelId> = nodes[0].node.list_channels().iter().map(|c| c.channel_id).collect();
+		self.chan_hashes.iter().any(|(c, hs)| hs.contains(hash) && !open.contains(c))
 	}
 
 	fn take_snapshot(&mut self, nodes: &[Node]) {
@@ -289,15 +307,19 @@ impl<'p> World<'p> {
 								self.closed_with_held_fails.insert(*channel_id);
 							}
 						},
-						Event::PaymentSent { payment_id: Some(id), payment_preimage, payment_hash, .. } => {
+						Event::PaymentSent { payment_id: Some(id), payment_preimage, payment_hash, fee_paid_msat, .. } => {
 							let ep = self.epoch;
 							let mut why = None;
+							let closed = self.carried_by_closed_channel(nodes, payment_hash);
 							if let Some(p) = self.pays.iter_mut().find(|p| p.id == *id) {
+								if p.fee_reported.is_none() {
+									p.fee_reported = Some(*fee_paid_msat);
+								}
 								if Sha256::hash(&payment_preimage.0).to_byte_array() != payment_hash.0 || *payment_hash != p.hash {
 									why = Some("PaymentSent: preimage does not hash to the payment hash".to_string());
 								}
 								p.sent.push(ep);
-								p.resolutions.push((self.step, ep));
+								p.resolutions.push((self.step, ep, closed));
 							}
 							if let Some(w) = why {
 								self.bad(w);
@@ -314,8 +336,11 @@ impl<'p> World<'p> {
 									&& self.reload_is_stale(ep)
 									&& self.pays[ix].epoch < ep
 									&& first_chan.map(|c| self.pending_in_channel(nodes, &c, &h) > 0).unwrap_or(false);
+								let open_now: HashSet<ChannelId> = nodes[0].node.list_channels().iter().map(|c| c.channel_id).collect();
+								let closed = first_chan.map(|c| !open_now.contains(&c)).unwrap_or(false);
 								let p = &mut self.pays[ix];
-								p.resolutions.push((step, ep));
+								p.resolutions.push((step, ep, closed));
+								p.n_path_failed += 1;
 								if live_in_monitor {
 									p.stale_live = true;
 								}
@@ -362,9 +387,10 @@ impl<'p> World<'p> {
 										self.bad("PaymentFailed although the recipient claimed the payment".to_string());
 									}
 								}
+								let closed = self.carried_by_closed_channel(nodes, &h);
 								let p = &mut self.pays[ix];
 								p.failed.push(ep);
-								p.resolutions.push((step, ep));
+								p.resolutions.push((step, ep, closed));
 							}
 						},
 						_ => {},
@@ -373,8 +399,9 @@ impl<'p> World<'p> {
 				if i == self.recipient {
 					match &e {
 						Event::PaymentClaimable { payment_hash, .. } => self.claimable.push_back(*payment_hash),
-						Event::PaymentClaimed { payment_hash, .. } => {
+						Event::PaymentClaimed { payment_hash, amount_msat, .. } => {
 							self.recip_claimed.insert(*payment_hash);
+							self.received.entry(*payment_hash).or_insert(*amount_msat);
 							let ep = self.epoch;
 							self.claimed_epoch.entry(*payment_hash).or_insert(ep);
 							let failed = self.pays.iter().any(|p| p.hash == *payment_hash && !p.failed.is_empty() && !p.dusty && !p.stale_failed && !p.stale_live);
@@ -619,7 +646,7 @@ impl<'p> World<'p> {
 		let id = PaymentId(hash.0);
 		let cur_epoch = self.epoch;
 		let cur_step = self.step;
-		self.pays.push(Pay { id, hash, preimage, amt, accepted: false, sent: vec![], failed: vec![], stale_failed: false, stale_live: false, created_step: cur_step, resolutions: vec![], dusty: amt < 2_000_000, epoch: cur_epoch });
+		self.pays.push(Pay { id, hash, preimage, amt, accepted: false, sent: vec![], failed: vec![], stale_failed: false, stale_live: false, created_step: cur_step, resolutions: vec![], fee_reported: None, n_path_failed: 0, dusty: amt < 2_000_000, epoch: cur_epoch });
 		(hash, preimage, secret, id)
 	}
 
@@ -694,6 +721,31 @@ impl<'p> World<'p> {
 				self.complete_updates(nodes, i);
 			},
 			"deliver" => self.deliver_kth(nodes, num(1) as usize),
+			"deliverto" => {
+				// one queued message (bundle) from node a to node b
+				let (a, b) = ((num(1) as usize) % n, (num(2) as usize) % n);
+				if let Some(ev) = self.queues.get_mut(&(a, b)).and_then(|q| q.pop_front()) {
+					self.deliver(nodes, a, b, ev);
+				}
+			},
+			"settle" => {
+				// deliver between a and b only, until both directions are quiet
+				let (a, b) = ((num(1) as usize) % n, (num(2) as usize) % n);
+				let mut idle = 0;
+				for _ in 0..60 {
+					let mut progressed = self.fetch(nodes);
+					for (x, y) in [(a, b), (b, a)] {
+						if let Some(ev) = self.queues.get_mut(&(x, y)).and_then(|q| q.pop_front()) {
+							self.deliver(nodes, x, y, ev);
+							progressed = true;
+						}
+					}
+					idle = if progressed { 0 } else { idle + 1 };
+					if idle >= 3 {
+						break;
+					}
+				}
+			},
 			"pump" => self.pump(nodes),
 			"disconnect" => self.disconnect(nodes, (num(1) as usize) % n, (num(2) as usize) % n),
 			"reconnect" => self.reconnect(nodes, (num(1) as usize) % n, (num(2) as usize) % n),
@@ -857,7 +909,7 @@ impl<'p> World<'p> {
 			// one of its parts): the monitor was told the resolution is complete and never repeats it
 			let lost_resolution = (1..=self.epoch).any(|k| {
 				let (snap_step, _, _) = &self.reloads[k - 1];
-				p.resolutions.iter().any(|(st, ep)| *ep < k && *st > *snap_step)
+				p.resolutions.iter().any(|(st, ep, closed)| *closed && *ep < k && *st > *snap_step)
 			});
 			let mut mine = Vec::new();
 			if !p.sent.is_empty() && !p.failed.is_empty() {
@@ -874,6 +926,20 @@ impl<'p> World<'p> {
 			}
 			if !claimed && !p.sent.is_empty() {
 				mine.push(format!("payment {}: PaymentSent although the recipient never claimed", tag));
+			}
+			// PaymentSent.fee_paid_msat against what the sender really committed: with no failed path at all,
+			// every HTLC it ever had pending for the payment was settled, and their amounts exceed the
+			// payment's amount by exactly the fees paid (its balance falls by amount + that)
+			if let (Some(Some(fee)), Some(set), Some(recv)) = (p.fee_reported, self.sent_htlcs.get(&p.hash), self.received.get(&p.hash)) {
+				if p.n_path_failed == 0 && !set.is_empty() {
+					let committed: u64 = set.iter().map(|(_, _, a)| *a).sum();
+					if committed >= *recv && fee != committed - *recv {
+						mine.push(format!(
+							"payment {}: PaymentSent reports fee_paid_msat {}, but the HTLCs the sender committed for it carry {} msat and the recipient received {} msat: {} msat were paid in fees",
+							tag, fee, committed, recv, committed - *recv
+						));
+					}
+				}
 			}
 			if p.stale_live {
 				// consequences of the startup failure of a live HTLC
@@ -1067,6 +1133,8 @@ fn main() {
 		held_fails: std::collections::HashMap::new(),
 		closed_with_held_fails: HashSet::new(),
 		chan_hashes: std::collections::HashMap::new(),
+		sent_htlcs: std::collections::HashMap::new(),
+		received: std::collections::HashMap::new(),
 		commit_snaps: Vec::new(),
 		epoch: 0,
 		step: 0,
